@@ -29,9 +29,41 @@ META = dict(
 _aes = None
 
 
+_real_aes = None
+
+
 def prepare(tier, seed):
-    global _aes
+    global _aes, _real_aes
     _aes, = loader.load(['scared.aes.base'])
+    try:
+        _real_aes, = loader.load_real(['scared.aes.base'])
+    except Exception:       # noqa: B902
+        _real_aes = None
+
+
+def validate_translation(res, fn_name, st, ky, out_terms, kwargs, table_axioms):
+    """Translator validation: the symbolic result evaluated on seeded inputs must equal what the real function returns (real numpy)."""
+    import random
+    if _real_aes is None:
+        return
+    from harness.common import EvalModel
+    r = random.Random(len(out_terms) * 7 + ky.size)
+    pairs = []
+    conc = {}
+    for arr, nm in ((st, 's'), (ky, 'k')):
+        vals = []
+        for t in S.terms(arr):
+            v = r.randrange(256)
+            vals.append(v)
+            pairs.append((t, z3.BitVecVal(v, t.size())))
+        conc[nm] = rnp.array(vals, dtype=arr.dtype).reshape(arr.shape)
+    m = EvalModel(pairs, table_axioms)
+    got = [m.eval(t).as_long() if E.is_sym(t) else int(t) for t in out_terms]
+    real = getattr(_real_aes, fn_name)(conc['s'], conc['k'], **kwargs)
+    if got == [int(v) for v in rnp.asarray(real).reshape(-1)]:
+        res['validated'] += 1
+    else:
+        res['unknown'].append(f'translator validation failed for aes.{fn_name}{kwargs}: symbolic model {got} vs real code {rnp.asarray(real).reshape(-1).tolist()}')
 
 
 def _register():
@@ -201,10 +233,13 @@ def job_flow(job, res):
             history.append([r, s])
             if r is None:
                 out = fn(st, ky)
+                validate_translation(res, mode, st, ky, S.terms(out), {}, _table_axioms())
                 pos = len(states[0]) - 1
                 desc = f'aes.{mode}(state{sshape} {job["dtype"]}, key{kshape}) == FIPS-197 {"Cipher" if mode == "encrypt" else "InvCipher"} output'
             else:
                 out = fn(st, ky, at_round=r, after_step=s)
+                if (r, s) in ((1, 2), (nr, 1)):
+                    validate_translation(res, mode, st, ky, S.terms(out), dict(at_round=r, after_step=s), _table_axioms())
                 pos = (F.enc_position if mode == 'encrypt' else F.dec_position)(nr, r, s)
                 desc = f'aes.{mode}(state{sshape} {job["dtype"]}, key{kshape}, at_round={r}, after_step={s}) == FIPS-197 state #{pos}'
             exp = sum((stt[pos] for stt in states), [])
